@@ -1,7 +1,7 @@
 //@target src/decoder/downlink/extended/update.rs
 //@props C05,C06,C07,C08,C09,C11,C12,C19,C01
 //@needs L2_row
-//@assume composition (default path): row step = DF::from_message (frame -> record, obligations L2.record.*) followed by update_from_downlink (record -> row, obligations L2.amend.*); the record obligations say which fields a fresh record carries for a frame, the amend obligations are stated for EVERY record satisfying the record invariant (CPR parity <= 1), so the composition is substitution. The whole-step obligations L2.step.* (thorough tier) re-check it end to end.
+//@assume composition (default path): row step = DF::from_message (frame -> record, obligations L2.record.*) followed by update_from_downlink (record -> row, obligations L2.amend.*); the record obligations say which fields a fresh record carries for a frame, the amend obligations are stated for EVERY record satisfying the record invariant (CPR parity <= 1), so the composition is substitution. (End-to-end whole-step obligations on the un-cut code were written and dropped: 300-600 s and > 28 GB each, they exhaust memory; the composition rests on this argument.)
 
 #[cfg(kani)]
 pub(crate) mod verif_l2_records {
